@@ -222,6 +222,9 @@ def build(desc, root):
     for sl in desc['slabs']:
         s = int(sl['index'])
         halos = sl['halos']
+        if sl.get('repeat'):
+            # a large superslab described compactly: the listed halo specifications repeated `repeat` times
+            halos = list(halos) * int(sl['repeat'])
         n = len(halos)
         S = Catalog()
         S.index = s
